@@ -401,6 +401,7 @@ Proof.
     eexists. split; [reflexivity|]. rewrite map_ptr_none. exact HF.
   - (* scalar arithmetic *)
     simpl in *. apply andb_prop in Hg as (Hu & Hg). destruct gt; [discriminate|].
+    match type of Hcp with (bind ?X _) = _ => destruct X as [[]|e] end; simpl in Hcp; [|discriminate].
     destruct (arith_trafo (lookup s) cm l op sc (pt_chans p)) as [tr|e]; simpl in *; [|discriminate].
     destruct HG as [HG|HG]; [|discriminate].
     destruct (IHp Hok (or_introl HG) s cm (Some tr) cs (HG _) Hg Hcp) as (pcs & Hd & HF). rewrite Hd. simpl.
